@@ -106,8 +106,14 @@ func lemmaHintOfRecord(item *HintItem, rec *Record, khash uint64, ver int32, off
 //@   loop 1 invariant ghostIndexCount-old(ghostIndexCount) == ghostScanCount-old(ghostScanCount)
 
 // step assertions of the tree replay
-func lemmaSlotSet(tree *HTree, item *HintItem, chunkID int) bool { return true }
-func lemmaSlotGone(tree *HTree, item *HintItem) bool             { return true }
+func lemmaSlotSet(tree *HTree, item *HintItem, chunkID int) bool {
+	ghostApplyCount++
+	return true
+}
+func lemmaSlotGone(tree *HTree, item *HintItem) bool {
+	ghostApplyCount++
+	return true
+}
 
 //@ func lemmaSlotSet
 //@   props C02
